@@ -141,13 +141,14 @@ partial def traverse (cid uid : Nat) (state : Nat)
 /- `wsConn.tryDelete` (gc states: 0 stop, 1 root, 2 none, 3 delete, 4 keep, 5 unsend). -/
 
 /-- `wsConn.tryDelete`: the two pure traversals `pass1F` / `pass2F` over the connection, then the
-    dispose / unsend loop. Fuel: one descent per subscription object. -/
+    dispose / unsend loop. Fuel: two descents per subscription object. -/
 partial def tryDeleteCore (cid uid : Nat) (sent : Bool) (sentDiff : Int) : M Unit := do
   let s ← getSub cid uid
   if s.direct > 0 then return
   let g ← get
   let c ← getConn cid
-  let fuel := c.objs.length + 2
+  -- a subscription can be on a path twice in the second traversal (first as delete, then as keep)
+  let fuel := 2 * c.objs.length + 3
   let memo0 : Memo := [(s.rid, uid, s.indirect, s.indirectsent, 2)]
   let (memo1, ctr1, ok1) := pass1F g.ord sentDiff fuel c uid 1 memo0 g.ordCtr
   modify fun g => { g with ordCtr := ctr1 }
